@@ -256,6 +256,66 @@ Proof.
     intros E2. subst q. simpl in E. congruence.
 Qed.
 
+(* bulk mutation through the view (MutableGraph defaults): only the viewed graph changes *)
+Lemma dg_remove_list_effect g ts : forall d n,
+  let '(d', n') := fold_left (fun acc t => let '(d', b) := dg_remove T eqb (fst acc) g t in
+                                           (d', if b then S (snd acc) else snd acc)) ts (d, n) in
+  (forall t, In t (dg_triples T eqb d' g) <-> In t (dg_triples T eqb d g) /\ ~ In t ts)
+  /\ (forall g', g' <> g -> dg_triples T eqb d' g' = dg_triples T eqb d g')
+  /\ (NoDup d -> NoDup d').
+Proof.
+  induction ts as [|t ts IH]; intros d n; simpl.
+  - repeat split; auto; tauto.
+  - destruct (dg_remove T eqb d g t) as [d1 b] eqn:E.
+    apply dg_remove_effect in E as (_ & H2 & H3 & H4).
+    specialize (IH d1 (if b then S n else n)).
+    destruct (fold_left _ ts (d1, if b then S n else n)) as [d' n'].
+    destruct IH as (I1 & I2 & I3). repeat split.
+    + apply I1 in H. destruct H as [Ha Hb]. apply H2 in Ha. tauto.
+    + apply I1 in H. destruct H as [Ha Hb]. apply H2 in Ha. intros [<-|Hc]; tauto.
+    + intros [Ha Hb]. apply I1. split; [apply H2; split; auto|]; intros Hc; apply Hb; auto.
+    + intros g' Hg. rewrite I2, H3; auto.
+    + auto.
+Qed.
+
+Theorem dg_remove_matching_effect d g sm pm om :
+  let d' := fst (dg_remove_matching T eqb d g sm pm om) in
+  (forall t, In t (dg_triples T eqb d' g) <->
+             In t (dg_triples T eqb d g) /\ triple_matches T sm pm om t = false)
+  /\ (forall g', g' <> g -> dg_triples T eqb d' g' = dg_triples T eqb d g')
+  /\ (NoDup d -> NoDup d').
+Proof.
+  unfold dg_remove_matching, dg_remove_list.
+  pose proof (dg_remove_list_effect g (dg_matching T eqb d g sm pm om) d O) as H.
+  destruct (fold_left _ (dg_matching T eqb d g sm pm om) (d, O)) as [d' n']. simpl.
+  destruct H as (H1 & H2 & H3). repeat split; auto.
+  - apply H1 in H. tauto.
+  - apply H1 in H. destruct H as [Ha Hb]. rewrite dg_query_is_filter in Hb.
+    destruct (triple_matches T sm pm om t) eqn:E; auto. exfalso. apply Hb. apply filter_In. auto.
+  - intros [Ha Hb]. apply H1. split; auto. rewrite dg_query_is_filter. intros Hc.
+    apply filter_In in Hc. destruct Hc as [_ Hc]. congruence.
+Qed.
+
+Theorem dg_retain_matching_effect d g sm pm om :
+  let d' := dg_retain_matching T eqb d g sm pm om in
+  (forall t, In t (dg_triples T eqb d' g) <->
+             In t (dg_triples T eqb d g) /\ triple_matches T sm pm om t = true)
+  /\ (forall g', g' <> g -> dg_triples T eqb d' g' = dg_triples T eqb d g')
+  /\ (NoDup d -> NoDup d').
+Proof.
+  unfold dg_retain_matching, dg_remove_list.
+  set (victims := filter (fun t => negb (triple_matches T sm pm om t)) (dg_triples T eqb d g)).
+  pose proof (dg_remove_list_effect g victims d O) as H.
+  destruct (fold_left _ victims (d, O)) as [d' n']. simpl.
+  destruct H as (H1 & H2 & H3). repeat split; auto.
+  - apply H1 in H. tauto.
+  - apply H1 in H. destruct H as [Ha Hb].
+    destruct (triple_matches T sm pm om t) eqn:E; auto. exfalso. apply Hb. apply filter_In.
+    split; auto. rewrite E. reflexivity.
+  - intros [Ha Hb]. apply H1. split; auto. intros Hc. apply filter_In in Hc.
+    destruct Hc as [_ Hc]. rewrite Hb in Hc. discriminate.
+Qed.
+
 (* ---------- graph as dataset ---------- *)
 
 Theorem gad_content g : gad_quads T g = map (fun t => mkQ t None) g.
@@ -326,7 +386,7 @@ End P.
 Lemma N_eqb_spec' : forall x y : N, N.eqb x y = true <-> x = y.
 Proof. intros; apply N.eqb_eq. Qed.
 
-Lemma step_nodup d o : NoDup d -> NoDup (fst (step d o)).
+Lemma step_nodup pl d o : NoDup d -> NoDup (fst (step pl d o)).
 Proof.
   intros Hn. destruct o; simpl; auto.
   - destruct (ds_insert N N.eqb d q) as [d' b] eqn:E. simpl.
@@ -337,14 +397,18 @@ Proof.
     apply (dg_insert_effect N N.eqb N_eqb_spec') in E. tauto.
   - destruct (dg_remove N N.eqb d g t) as [d' b] eqn:E. simpl.
     apply (dg_remove_effect N N.eqb N_eqb_spec') in E. tauto.
+  - pose proof (dg_remove_matching_effect N N.eqb N_eqb_spec' d g (mdesc_t sm) (mdesc_t pm) (mdesc_t om)) as H.
+    destruct (dg_remove_matching N N.eqb d g (mdesc_t sm) (mdesc_t pm) (mdesc_t om)) as [d' n]. simpl in *. tauto.
+  - pose proof (dg_retain_matching_effect N N.eqb N_eqb_spec' d g (mdesc_t sm) (mdesc_t pm) (mdesc_t om)) as H.
+    simpl in *. tauto.
 Qed.
 
-Fixpoint final (d : dataset N) (ops : list op) : dataset N :=
-  match ops with [] => d | o :: ops' => final (fst (step d o)) ops' end.
+Fixpoint final (pl : pool) (d : dataset N) (ops : list op) : dataset N :=
+  match ops with [] => d | o :: ops' => final pl (fst (step pl d o)) ops' end.
 
-Theorem reachable_nodup ops : NoDup (final [] ops).
+Theorem reachable_nodup pl ops : NoDup (final pl [] ops).
 Proof.
-  assert (H : forall d, NoDup d -> NoDup (final d ops)).
+  assert (H : forall d, NoDup d -> NoDup (final pl d ops)).
   { induction ops as [|o ops IH]; simpl; intros d Hd; auto. apply IH, step_nodup, Hd. }
   apply H. constructor.
 Qed.
@@ -356,7 +420,7 @@ Definition devirt (o : op) : op :=
   | VRemove g t => DRemove (mkQ t g)
   | _ => o
   end.
-Theorem history_devirt d ops : run d ops = run d (map devirt ops).
+Theorem history_devirt pl d ops : run pl d ops = run pl d (map devirt ops).
 Proof.
   revert d; induction ops as [|o ops IH]; intros d; simpl; auto.
   destruct o; simpl; try (rewrite IH; reflexivity);
@@ -374,6 +438,6 @@ Qed.
 
 (* non-vacuity: a concrete reachable state with two graphs sharing a triple *)
 Example nonvacuous :
-  let d := final [] [DInsert (mkQ (mkT 1 2 3) None); VInsert (Some 9) (mkT 1 2 3); VInsert (Some 9) (mkT 4 5 6)] in
+  let d := final [] [] [DInsert (mkQ (mkT 1 2 3) None); VInsert (Some 9) (mkT 1 2 3); VInsert (Some 9) (mkT 4 5 6)] in
   NoDup d /\ length (union_triples N d) = 3%nat /\ length (dg_triples N N.eqb d (Some 9)) = 2%nat.
 Proof. vm_compute. repeat split; repeat constructor; simpl; intuition discriminate. Qed.
